@@ -6,7 +6,7 @@ import json, os, re
 from collections import Counter
 
 PKG = "vdr/didnuts"
-HARNESS = ["vdr/didnuts/zz_verif_c09_test.go"]
+HARNESS = ["vdr/didnuts/zz_verif_c09_test.go", "vdr/didnuts/zz_verif_c09entry_test.go"]
 
 REQUIRED = ["accepted_create_sound", "accepted_create_signed_by_did_key", "accepted_update_sound",
             "accepted_update_signed_by_controller_key", "accepted_update_authorised_under_every_named_version", "signing_time_irrelevant_when_prevs_pin", "callback_accepts_iff", "reprocess_is_callback_again", "resolvable_only_if_accepted", "rejected_inert", "accepted_changes_own_did_only",
@@ -15,7 +15,12 @@ REQUIRED = ["accepted_create_sound", "accepted_create_signed_by_did_key", "accep
             "validator_rules_sound_complete", "validator_rules_each_necessary",
             "fact_network_validators", "fact_wiring", "fact_succeeded_version_and_key_collection", "fact_entry_id_owner_is_document", "fact_verifier_always_verifies", "fact_thumbprint_rule_for_every_type", "fact_call_sites", "fact_comparisons", "fact_thumbprint_from_key_material", "fact_entry_id_checks", "fact_validator_scope", "fact_max_controller_depth",
             "fact_resolve_conditions", "fact_controller_skips", "fact_create_update_split", "fact_callback_steps",
-            "fact_store_calls", "fact_update_steps", "fact_ambassador_controller_resolution", "fact_key_resolver"]
+            "fact_store_calls", "fact_update_steps", "fact_ambassador_controller_resolution", "fact_key_resolver",
+            # entry layer (NutsProofs.Props.C09Entry): Start's selection filter, handleNetworkEvent, store faults, event streams
+            "filtered_event_inert", "notify_refines_callback", "finished_iff_accepted", "notify_changes_only_if_accepted",
+            "store_fault_classification", "filter_subsumes_type_check", "event_stream_is_callback_of_passed",
+            "event_stream_resolvable_only_if_accepted", "passed_mem",
+            "fact_start_subscription", "fact_did_document_type", "fact_network_event_classification"]
 
 FULL_DOC_RE = re.compile(r"doc=(\S+?)\{Context:\[[^\]]*\];Controller:\[([^\]]*)\];VerificationMethod:\[([^\]]*)\];Authentication:\[[^\]]*\];"
                          r"AssertionMethod:\[[^\]]*\];CapabilityInvocation:\[([^\]]*)\];CapabilityDelegation:\[[^\]]*\];KeyAgreement:\[[^\]]*\];Service:\[([^\]]*)\]")
@@ -178,7 +183,7 @@ def embedded_illformed(doc):
 
 def run(ctx):
     ctx.facts()
-    thms = ctx.build_and_audit(["NutsProofs.Props.C09"])
+    thms = ctx.build_and_audit(["NutsProofs.Props.C09", "NutsProofs.Props.C09Entry"])
     for r in REQUIRED:
         if not any(t.endswith("Props." + r) for t in thms):
             ctx.oblige("thm-present:" + r, False, "theorem missing or its module does not build")
@@ -241,6 +246,7 @@ def run(ctx):
     # ---- direct property oracles on the implementation's own outputs
     kinds, classes, labels = Counter(), Counter(), Counter()
     distinct = set()
+    entry = Counter()      # entry layer: (event type class, payload type class, fault) -> outcome kind
     n_pairs = n_ok = n_embedded_illformed = n_deactivated_controller = n_deactivated_after = n_dag = n_reprocess = n_reprocess_changed = 0
     dag_classes = Counter()
     scripted_outcomes = Counter()
@@ -336,6 +342,29 @@ def run(ctx):
                    "update accepted (DAG verifier passed earlier) although the JWS does not verify under the key the kid names", i)
         if "NONDETERMINISTIC" in flags:
             report("nondeterministic-outcome", "the same pair on the same history gave a different outcome on a second store: " + flags, i)
+        # ---- entry layer: what the subscription of ambassador.Start may hand to the callback, and how a failing store is answered
+        ev = op.get("ev")
+        if cls.startswith("retry:") and not (ev and ev.get("fault") == "db"):
+            # store_fault_classification: without a database error at the store NO answer is a bare (retried) error
+            report("refused-document-is-retried-instead-of-dropped",
+                   f"handleNetworkEvent answered a refusal ({cls}) with a bare error: the notifier would retry it, although no database error occurred", i)
+        if ev:
+            passes = ev["type"] == "payload" and ev["ptype"] == "application/did+json"
+            entry[("payload-event" if ev["type"] == "payload" else "other-event:" + ev["type"],
+                   "did+json" if ev["ptype"] == "application/did+json" else "other-type:" + ev["ptype"],
+                   ev.get("fault", "")) + (cls.split(":")[0],)] += 1
+            if not passes and cls != "filtered":
+                report("event-outside-the-did-document-subscription-reached-the-ambassador",
+                       f"a DAG event of type {ev['type']!r} with payload type {ev['ptype']!r} was handed to handleNetworkEvent (outcome {cls})", i)
+            if passes and cls == "filtered":
+                report("did-document-payload-event-was-filtered", "a payload event of a did+json transaction never reached the ambassador", i)
+            if ev.get("fault") and cls == "ok":
+                report("accepted-although-the-store-failed", "handleNetworkEvent reported success although didStore.Add failed", i)
+            if ev.get("fault") == "db" and cls.startswith("err:store:fault"):
+                report("database-error-answered-as-fatal",
+                       "didStore.Add failed with a database error and handleNetworkEvent answered dag.EventFatal: the document is never retried (lost)", i)
+            if ev.get("fault") == "other" and cls.startswith("retry:"):
+                report("non-database-error-is-retried", "didStore.Add failed with a non-database error and the answer was a bare (retried) error", i)
         if cls != "ok":
             # rejected => inert: database byte-identical, every Resolve / key resolver answer unchanged
             if "db-same" not in flags:
@@ -461,6 +490,7 @@ def run(ctx):
     ctx.cov["input_distribution"] = {"histories": sum(labels.values()), "history_kinds": dict(sorted(labels.items())),
                                      "pair_kinds": dict(sorted(kinds.items())), "outcome_classes": dict(sorted(classes.items())),
                                      "accepted": n_ok, "rejected": n_pairs - n_ok,
+                                     "entry_layer_events(event type, payload type, store fault, outcome)": {" | ".join(k): v for k, v in sorted(entry.items())},
                                      "reprocess_runs": n_reprocess, "reprocess_runs_that_changed_the_store": n_reprocess_changed,
                                      "delayed_vdr_dag_verdicts": dict(sorted(dag_classes.items())),
                                      "scripted_step_outcomes": dict(sorted(scripted_outcomes.items())),
